@@ -1,11 +1,16 @@
 import DaskModel.DriverLib
 import DaskModel.Model.NormalForm
 import DaskModel.Model.NormalFormRec
+import DaskModel.Model.NormalFormPandas
 import DaskModel.Model.TaskNode
 import DaskModel.Model.Repack
 import DaskModel.Model.GraphMerge
 import DaskModel.Model.Delayed
 import DaskModel.Model.GetScheduler
+import DaskModel.Model.FusedKey
+import DaskModel.Model.PickleLoop
+import DaskModel.Model.DelayedUnpack
+import DaskModel.Generated.FusedKeyRenamer
 open Dask
 open Dask.NF
 open Dask.TaskNode
@@ -53,6 +58,32 @@ def hTokPreKw : Handler := handler fun args =>
       | .list [.str k, v] => do pure (k, (← decVal v))
       | _ => none)
     pure (.str (tokPreKw vs kws))
+  | _ => none
+
+/-- `(np v)` / `(ea v "dtypename")` -/
+def decPVals : SExp → Option PVals
+  | .list [.sym "np", v] => do pure (.np (← decVal v))
+  | .list [.sym "ea", v, .str dn] => do pure (.ea (← decVal v) dn)
+  | _ => none
+
+/-- `(prange "cls" start stop step "dtype" name)` / `(pplain "cls" name vals)` -/
+def decPIdx : SExp → Option PIndex
+  | .list [.sym "prange", .str cls, .int a, .int b, .int c, .str dt, name] => do pure (.range cls a b c dt (← decVal name))
+  | .list [.sym "pplain", .str cls, name, values] => do pure (.plain cls (← decVal name) (← decPVals values))
+  | _ => none
+
+/-- `(pindex idx)` `(pseries name "dtype" vals idx)` `(pframe (vals…) columns index)` `(pcat codes categories ordered)` -/
+def decPObj : SExp → Option PObj
+  | .list [.sym "pindex", i] => do pure (.index (← decPIdx i))
+  | .list [.sym "pseries", name, .str dt, values, i] => do pure (.series (← decVal name) dt (← decPVals values) (← decPIdx i))
+  | .list [.sym "pframe", .list cols, c, i] => do pure (.frame (← cols.mapM decPVals) (← decPIdx c) (← decPIdx i))
+  | .list [.sym "pcat", codes, cats, o] => do pure (.categorical (← decVal codes) (← decPIdx cats) (← o.toBool?))
+  | _ => none
+
+/-- `(ptokpre obj)` ↦ the string fed to md5 by `tokenize(obj)` for a NumPy-backed pandas object -/
+def hPTokPre : Handler := handler fun args =>
+  match args with
+  | [o] => do pure (.str (ptokPre (← decPObj o)))
   | _ => none
 
 /-- possibly recursive values: `(rval V) (back n) (rlist r…) (rtuple r…) (rdict (V r)…)` -/
@@ -311,6 +342,105 @@ def hDelayedRun : Handler := handler fun args =>
     pure (.list [.int (Int.ofNat (Delayed.evalE codeSem e)), SExp.ofOptNat (GraphMerge.evalG g fuel e.nm), .list entries])
   | _ => none
 
+/-! ### C15: unpack_collections of dask/delayed.py -/
+
+open Dask.DelayedUnpack in
+/-- `(lit n) (del k) (list p…) (tuple p…) (set p…) (ilist p…) (ituple p…) (iset p…) (dict (k v)…) (slice a b c)
+    (dc cls p…) (nt cls p…)` -/
+partial def decPV : SExp → Option PV
+  | .list [.sym "lit", n] => do pure (.lit (← n.toNat?))
+  | .list [.sym "del", n] => do pure (.del (← n.toNat?))
+  | .list (.sym "list" :: xs) => do pure (.cont .list (← xs.mapM decPV))
+  | .list (.sym "tuple" :: xs) => do pure (.cont .tuple (← xs.mapM decPV))
+  | .list (.sym "set" :: xs) => do pure (.cont .set (← xs.mapM decPV))
+  | .list (.sym "ilist" :: xs) => do pure (.iter .list (← xs.mapM decPV))
+  | .list (.sym "ituple" :: xs) => do pure (.iter .tuple (← xs.mapM decPV))
+  | .list (.sym "iset" :: xs) => do pure (.iter .set (← xs.mapM decPV))
+  | .list (.sym "dict" :: kvs) => do
+    pure (.dict (← kvs.mapM (fun e => match e with
+      | .list [k, v] => do pure ((← decPV k), (← decPV v))
+      | _ => none)))
+  | .list [.sym "slice", a, b, c] => do pure (.slice (← decPV a) (← decPV b) (← decPV c))
+  | .list (.sym "dc" :: c :: xs) => do pure (.dataclass (← c.toNat?) (← xs.mapM decPV))
+  | .list (.sym "nt" :: c :: xs) => do pure (.namedtuple (← c.toNat?) (← xs.mapM decPV))
+  | _ => none
+
+open Dask.DelayedUnpack in
+def ckSym : CK → String | .list => "list" | .tuple => "tuple" | .set => "set"
+
+open Dask.DelayedUnpack in
+partial def encPV : PV → SExp
+  | .lit n => .list [.sym "lit", .int n]
+  | .del k => .list [.sym "del", .int k]
+  | .cont k xs => .list (.sym (ckSym k) :: xs.map encPV)
+  | .iter k xs => .list (.sym ("i" ++ ckSym k) :: xs.map encPV)
+  | .dict kvs => .list (.sym "dict" :: kvs.map (fun p => .list [encPV p.1, encPV p.2]))
+  | .slice a b c => .list [.sym "slice", encPV a, encPV b, encPV c]
+  | .dataclass c xs => .list (.sym "dc" :: .int c :: xs.map encPV)
+  | .namedtuple c xs => .list (.sym "nt" :: .int c :: xs.map encPV)
+
+open Dask.DelayedUnpack in
+/-- `(obj p) (ref k) (list t…) (conv tuple|set t) (dict (k v)…) (slice a b c) (dc cls t…) (nt cls t…)` -/
+partial def encTT : TT → SExp
+  | .obj p => .list [.sym "obj", encPV p]
+  | .ref k => .list [.sym "ref", .int k]
+  | .list ts => .list (.sym "list" :: ts.map encTT)
+  | .conv k t => .list [.sym "conv", .sym (ckSym k), encTT t]
+  | .dict kvs => .list (.sym "dict" :: kvs.map (fun p => .list [encTT p.1, encTT p.2]))
+  | .slice a b c => .list [.sym "slice", encTT a, encTT b, encTT c]
+  | .dataclass c ts => .list (.sym "dc" :: .int c :: ts.map encTT)
+  | .namedtuple c ts => .list (.sym "nt" :: .int c :: ts.map encTT)
+
+/-- `(dunpack p)` ↦ `(task (collection keys…))` -/
+def hDUnpack : Handler := handler fun args =>
+  match args with
+  | [p] => do
+    let r := DelayedUnpack.unpack (← decPV p)
+    pure (.list [encTT r.1, SExp.ofNats r.2])
+  | _ => none
+
+/-- `(dcall (p…) (("kw" p)…))` ↦ `((task…) (("kw" task)…) (collection keys…))` -/
+def hDCall : Handler := handler fun args =>
+  match args with
+  | [.list ps, .list kws] => do
+    let ps ← ps.mapM decPV
+    let kws ← kws.mapM (fun e => match e with
+      | .list [.str k, v] => do pure (k, (← decPV v))
+      | _ => none)
+    let r := DelayedUnpack.callArgs ps kws
+    pure (.list [.list (r.1.map encTT), .list (r.2.1.map (fun p => .list [.str p.1, encTT p.2])), SExp.ofNats r.2.2])
+  | _ => none
+
+/-! ### C12: _normalize_pickle -/
+
+/-- `(pickleloop (d|none …))` ↦ `(digest d flagged)` | `(random)` -/
+def hPickleLoop : Handler := handler fun args =>
+  match args with
+  | [.list as] => do
+    let as ← as.mapM (fun a => do pure ((← a.toOptInt?).map Int.toNat))
+    pure (match PickleLoop.normalizePickle as with
+      | .digest d f => .list [.sym "digest", .int d, SExp.ofBool f]
+      | .random => .list [.sym "random"])
+  | _ => none
+
+/-! ### C13: default_fused_keys_renamer -/
+
+/-- `(fusedparts maxlen (split…) firstsplit first)` ↦ `(kept full|none)`: the characters of the joined name that are
+    kept and, when the name was cut, the full joined name whose digest the code appends; `maxlen` = the argument
+    `max_fused_key_length`, slack and room are the extracted constants -/
+def hFusedParts : Handler := handler fun args =>
+  match args with
+  | [maxlen, .list splits, .str fs, .str first] => do
+    let maxlen ← maxlen.toNat?
+    let splits ← splits.mapM SExp.toStr?
+    let thr := FusedKey.threshold maxlen Generated.FusedKeyRenamer.slack
+    let keep := FusedKey.keepLen maxlen Generated.FusedKeyRenamer.slack Generated.FusedKeyRenamer.room
+    let (kept, full) := FusedKey.fusedParts thr keep (splits.map String.toList) fs.toList first.toList
+    pure (.list [.str (String.ofList kept), match full with
+      | some c => .str (String.ofList c)
+      | none => .sym "none"])
+  | _ => none
+
 /-! ### C14: get_scheduler -/
 
 def decSpec : SExp → Option GetScheduler.Spec
@@ -345,7 +475,7 @@ def hGetScheduler : Handler := handler fun args =>
   | _ => none
 
 def table : List (String × Handler) :=
-  [("tokprerec", hTokPreRec), ("getscheduler", hGetScheduler), ("delayedrun", hDelayedRun), ("mergeeval", hMergeEval), ("unpack", hUnpack), ("unpacktop", hUnpackTop), ("tune", hTune),
+  [("pickleloop", hPickleLoop), ("ptokpre", hPTokPre), ("dunpack", hDUnpack), ("dcall", hDCall), ("fusedparts", hFusedParts), ("tokprerec", hTokPreRec), ("getscheduler", hGetScheduler), ("delayedrun", hDelayedRun), ("mergeeval", hMergeEval), ("unpack", hUnpack), ("unpacktop", hUnpackTop), ("tune", hTune),
    ("nodepre", hNodePre), ("nodeclass", hNodeClass), ("nodeeval", hNodeEval),
    ("tokpre", hTokPre), ("tokprekw", hTokPreKw), ("pyrepr", hPyRepr), ("pystr", hPyStr), ("logical", hLogical)]
 
